@@ -6,6 +6,7 @@ import mir
 import codeclass as cc
 import rules_tables as rt
 import rules_c10
+import rules_num as rn
 
 # how a nested write contributes to the returned count (contract of the callee)
 WRITE_TO_LEN = {
@@ -20,9 +21,9 @@ LEN_NAMES = {
 
 PAIRS = [
     # code, writer body finder, len body path, (writer value/param arg indices), (len arg indices)
-    ("gamma", dict(path="codes::gamma::default_write_gamma"), "codes::gamma::len_gamma_param", (2,), (1,)),
-    ("delta", dict(path="codes::delta::default_write_delta"), "codes::delta::len_delta_param", (2,), (1,)),
-    ("zeta", dict(path="codes::zeta::default_write_zeta"), "codes::zeta::len_zeta_param", (2, 3), (1, 2)),
+    ("gamma", rn.NONTABLE["gamma.write"], "codes::gamma::len_gamma_param", (2,), (1,)),
+    ("delta", rn.NONTABLE["delta.write"], "codes::delta::len_delta_param", (2,), (1,)),
+    ("zeta", rn.NONTABLE["zeta.write"], "codes::zeta::len_zeta_param", (2, 3), (1, 2)),
     ("minimal_binary", dict(path="codes::minimal_binary::MinimalBinaryWrite::write_minimal_binary"), "codes::minimal_binary::len_minimal_binary", (2, 3), (1, 2)),
     ("pi", dict(path="codes::pi::PiWrite::write_pi"), "codes::pi::len_pi", (2, 3), (1, 2)),
     ("rice", dict(path="codes::rice::RiceWrite::write_rice"), "codes::rice::len_rice", (2, 3), (1, 2)),
@@ -118,13 +119,17 @@ def guards(p, argmap):
 def run_len_equals_return(chk, F, rule="L3.len_eq_return"):
     chk.rule(rule, floor=8, doc="for 8 codes: on every path, the value returned by the writer (primitive writes replaced by their contracts: write_bits(_, n) -> n, write_unary(v) -> v+1, nested code -> its len function) equals the value of the len function as a linear form over the same terms, under the same guards")
     for code, wfind, lpath, wargs, largs in PAIRS:
-        wb = F.body(wfind["path"])
+        import rules_num as rn
+        if isinstance(wfind, tuple):
+            wb, wgen = rn.find_body(F, wfind[0]), wfind[1]
+        else:
+            wb, wgen = F.body(wfind["path"]), {}
         lb = F.body(lpath)
         wmap = {a: i for i, a in enumerate(wargs)}
         lmap = {a: i for i, a in enumerate(largs)}
         wsig, lsig = {}, {}
         probs = []
-        for p in mir.walk(wb):
+        for p in mir.walk_inline(wb, F, gen_map=wgen):
             r = p.ret
             if p.end[0] != "return" or not (isinstance(r, tuple) and r[0] == "agg" and r[3] == "Ok"):
                 continue
